@@ -1771,11 +1771,12 @@ func ExecSelect(query *Query, current []any) ([]any, error) {
 		switch current := current.(type) {
 		case []any:
 			{
-				rs, err := ExecSelect(query, current)
-				if err != nil {
-					return nil, err
+				// the result of an inner array: it was filtered and projected
+				// by its own copy of the query already
+				if current == nil {
+					current = make([]any, 0)
 				}
-				copy = append(copy, rs)
+				copy = append(copy, current)
 			}
 		case Map:
 			{
